@@ -219,12 +219,16 @@ func (t *stdioClientTransport) sendRequest(ctx context.Context, req *JSONRPCRequ
 	t.pendingRequests[reqID] = respChan
 	t.pendingMutex.Unlock()
 
-	// Clean up on exit.
+	// Clean up on exit. close() may have swept the pending table meanwhile: whoever removes the
+	// entry closes its channel.
 	defer func() {
 		t.pendingMutex.Lock()
+		_, registered := t.pendingRequests[reqID]
 		delete(t.pendingRequests, reqID)
 		t.pendingMutex.Unlock()
-		close(respChan)
+		if registered {
+			close(respChan)
+		}
 	}()
 
 	// Send request.
@@ -238,7 +242,11 @@ func (t *stdioClientTransport) sendRequest(ctx context.Context, req *JSONRPCRequ
 
 	// Wait for response or timeout.
 	select {
-	case resp := <-respChan:
+	case resp, ok := <-respChan:
+		if !ok {
+			// close() swept the pending table: there is no answer
+			return nil, fmt.Errorf("transport closed")
+		}
 		return resp, nil
 	case <-ctx.Done():
 		return nil, ctx.Err()
